@@ -21,6 +21,8 @@ pub fn pair(name: &str) -> (Scope, Scope) {
         "P11" => ("P1", "P1"),
         "P21" => ("P2", "P1"),
         "P22" => ("P2", "P2"),
+        "P11l" => ("P1l", "P1l"),
+        "P21l" => ("P2l", "P1l"),
         _ => panic!("unknown product scope {name}"),
     };
     (scope(a).unwrap(), scope(b).unwrap())
@@ -52,7 +54,7 @@ impl Product {
             count: w.metrics.total_gc_count(),
             debt: w.metrics.allocation_debt().to_bits(),
             phase: w.arena.as_ref().map(|a| crate::world::ph(a.collection_phase())),
-            handles: w.hs.iter().map(|h| h.is_some()).collect(),
+            handles: w.sh.handles.iter().map(|h| h.is_some()).collect(),
         }
     }
 
@@ -63,8 +65,9 @@ impl Product {
         if other.sc.sets == 0 {
             return Ok(());
         }
-        for (hi, h) in me.hs.iter().enumerate() {
-            let Some(h) = h else { continue };
+        for hi in 0..me.hs.len() {
+            // wherever the handle is owned: by the harness or by a heap value of the other arena
+            let Some(h) = me.href(hi) else { continue };
             let r = guarded("presentation of a foreign handle", || {
                 oa.mutate(|_, root| -> VResult {
                     let s = root.sets[0].unwrap();
@@ -88,6 +91,27 @@ impl Product {
     }
 }
 
+impl Product {
+    /// Handles owned by heap values of arena `i` whose destructor has run are gone: the issuing
+    /// arena's shadow forgets them. Returns how many were released.
+    fn release_lent(&mut self, i: usize) -> usize {
+        let mut n = 0;
+        for k in 0..self.w[i].sh.objs.len() {
+            let o = &mut self.w[i].sh.objs[k];
+            if let (Some(hi), true) = (o.held, o.dropped) {
+                o.held = None;
+                let alive = self.w[1 - i].arena.is_some();
+                let other = &mut self.w[1 - i];
+                other.sh.handles[hi as usize] = None;
+                other.lent[hi as usize] = None;
+                other.cov.bump(if alive { "lent_handle_dropped_by_foreign_heap" } else { "lent_handle_dropped_after_issuer_died" });
+                n += 1;
+            }
+        }
+        n
+    }
+}
+
 impl Sys for Product {
     fn create(sc: &Scope) -> Self {
         let (a, b) = pair(sc.name);
@@ -106,8 +130,22 @@ impl Sys for Product {
                 ops.push(Op::n0(K::DropArena).on(i as u8));
             } else {
                 for (hi, h) in self.w[i].sh.handles.iter().enumerate() {
-                    if h.is_some() {
+                    if h.is_some() && self.w[i].lent[hi].is_none() {
                         ops.push(Op::n1(K::DropH, hi as u8).on(i as u8));
+                    }
+                }
+            }
+            // a handle of the other arena moves into a heap value of this one
+            if self.w[i].arena.is_some() && self.w[i].sc.lend {
+                let other = &self.w[1 - i];
+                let sh = &self.w[i].sh;
+                for hi in 0..other.hs.len() {
+                    if other.hs[hi].is_some() && other.sh.handles[hi].is_some() {
+                        for b in sh.reach() {
+                            if sh.objs[b as usize].kind == crate::world::KNODE && sh.objs[b as usize].held.is_none() {
+                                ops.push(Op::n2(K::Lend, hi as u8, b).on(i as u8));
+                            }
+                        }
                     }
                 }
             }
@@ -169,10 +207,27 @@ impl Sys for Product {
                 guarded("DynamicRoot::drop after arena death", move || drop(h))?;
                 self.w[i].sh.handles[op.a as usize] = None;
             }
+            K::Lend => {
+                let h = self.w[1 - i].hs[op.a as usize].take().expect("handle to lend");
+                self.w[i].incoming = Some(h);
+                self.w[i].apply(local)?;
+                let p = self.w[i].lent_out.take().expect("where the handle went");
+                self.w[1 - i].lent[op.a as usize] = Some(p);
+                self.w[i].cov.bump("handle_moved_into_foreign_heap");
+            }
             _ => self.w[i].apply(local)?,
         }
-        if let Some(before) = before {
-            let after = self.observe(1 - i);
+        // heap values that owned a handle of the other arena and were destructed released it
+        let released = self.release_lent(i);
+        if let Some(mut before) = before {
+            let mut after = self.observe(1 - i);
+            if op.k == K::Lend || released > 0 {
+                // the other arena's handle bookkeeping legitimately changed (and nothing else)
+                before.canon.clear();
+                after.canon.clear();
+                before.handles.clear();
+                after.handles.clear();
+            }
             if before != after {
                 let what = if before.canon != after.canon {
                     "collector bookkeeping / colours / list"
@@ -226,6 +281,7 @@ impl Sys for Product {
         let which = i / per;
         let kind = i % per;
         let before = self.observe(1 - which);
+        let holds_foreign = self.w[which].sh.objs.iter().any(|o| o.held.is_some());
         let [a, b] = self.w;
         let (me, other) = if which == 0 { (a, b) } else { (b, a) };
         if me.arena.is_none() {
@@ -241,7 +297,9 @@ impl Sys for Product {
         // rebuild a product view of the other arena for the comparison
         let mut canon = vec![];
         other.canon(&mut canon);
-        if canon != before.canon || other.metrics.total_gc_count() != before.count || other.metrics.allocation_debt().to_bits() != before.debt {
+        if holds_foreign {
+            // the probe destructs heap values that own the other arena's handles: its slots change
+        } else if canon != before.canon || other.metrics.total_gc_count() != before.count || other.metrics.allocation_debt().to_bits() != before.debt {
             return Err(Viol::new("c20.interference", format!("a {} probe on arena {which} changed arena {}", if c02 { "2x finish_cycle" } else { "drop" }, 1 - which)));
         }
         other.finish()
